@@ -10,10 +10,14 @@ package literals
 //@ hookset litdecision
 //@ hook before (*golang.org/x/tools/go/ast/astutil.Cursor).Replace(c, n)
 //@   replaced = true
+//@ hook before mvdan.cc/garble/internal/literals.obfuscateString(o, v)
+//@   assert("[C05] the-whole-constant-value-is-what-is-obfuscated", v == constant.StringVal(typeAndValue.Value))
+//@ hook before mvdan.cc/garble/internal/literals.handleCompositeLiteral(o, isPtr, lit, inf)
+//@   assert("[C05] address-of-a-literal-is-rebuilt-as-a-pointer-and-a-plain-literal-as-a-value", (isPtr ==> dyntypeis(cursor.Node(), *ast.UnaryExpr) && cursor.Node().(*ast.UnaryExpr).Op == token.AND && lit == cursor.Node().(*ast.UnaryExpr).X) && (!isPtr ==> lit == cursor.Node()))
 //@ end
 
 //@ func Obfuscate#post
-//@   property C09
+//@   property C09 C05
 //@   hooks litdecision
 //@   requires !replaced
 //@   skip safety call-requires
